@@ -1,6 +1,9 @@
-(* C19 -- property theorems only: statement + exact + Print Assumptions. *)
-From Coq Require Import List ZArith.
-From LJT Require Import model.Huff gen.GenNbits proofs.NbitsProofs.
+(* C19 -- property theorems only: statement + exact + Print Assumptions.
+   Model: model/Huff.v (jchuff.c jpeg_gen_optimal_table / jpeg_make_c_derived_tbl,
+   jdhuff.c jpeg_make_d_derived_tbl / jpeg_huff_decode / HUFF_DECODE look-ahead,
+   jpeg_nbits.h).  Generated facts: gen/GenNbits.v, gen/GenStdHuff.v. *)
+From Coq Require Import List ZArith Bool.
+From LJT Require Import model.Huff gen.GenNbits gen.GenStdHuff proofs.NbitsProofs proofs.HuffCodeProofs.
 Local Open Scope Z_scope.
 
 (* bit-length function: floor(log2 x)+1 for every x >= 1 (unbounded), 0 for 0, and
@@ -10,3 +13,45 @@ Theorem C19_nbits_correct : forall x,
   (0 <= x < 65536 -> run_lookup nbits_runs_c x = nbits x /\ run_lookup nbits_runs_asm x = nbits x).
 Proof. exact nbits_correct_all. Qed.
 Print Assumptions C19_nbits_correct.
+
+(* encoder-side and decoder-side tables derived from ANY table accepted by the
+   validators are mutual inverses: the bit-serial decoder (Figure F.16 loop)
+   applied to the code word of sym followed by arbitrary further bits returns
+   sym, consumes exactly the code word and raises no bad-code warning *)
+Theorem C19_c_d_tables_inverse :
+  forall bits vals maxsym isDC maxdc ct dt sym code rest,
+  length bits = 17%nat ->
+  make_c_derived bits vals maxsym = Some ct ->
+  make_d_derived bits vals isDC maxdc = Some dt ->
+  encode_sym ct sym = Some code ->
+  0 <= sym <= 255 ->
+  decode_serial dt 1 (code ++ rest) = Some (sym, false, rest).
+Proof. exact c_d_tables_inverse. Qed.
+Print Assumptions C19_c_d_tables_inverse.
+
+(* ... and so does the HUFF_LOOKAHEAD = 8 table path of HUFF_DECODE (table hit,
+   9-bit slow path on a miss, and the fewer-than-8-bits fallback) *)
+Theorem C19_lookahead_inverse :
+  forall bits vals maxsym isDC maxdc ct dt sym code rest,
+  length bits = 17%nat ->
+  make_c_derived bits vals maxsym = Some ct ->
+  make_d_derived bits vals isDC maxdc = Some dt ->
+  encode_sym ct sym = Some code ->
+  0 <= sym <= 255 ->
+  decode_lookahead dt (code ++ rest) = Some (sym, false, rest).
+Proof. exact lookahead_eq_serial. Qed.
+Print Assumptions C19_lookahead_inverse.
+
+(* non-vacuity + regenerated fact: the four tables of jstdhuff.c (as they are in
+   the tree now) pass both validators, and each of their symbols has a code *)
+Theorem C19_std_tables_accepted :
+  forallb (fun t : bool * list Z * list Z => match t with
+           | (isDC, b, v) =>
+               (length b =? 17)%nat &&
+               match make_c_derived b v (if isDC then 15 else 255), make_d_derived b v isDC 15 with
+               | Some _, Some _ => true
+               | _, _ => false
+               end
+           end) std_tables = true.
+Proof. exact std_tables_accepted. Qed.
+Print Assumptions C19_std_tables_accepted.
